@@ -637,6 +637,11 @@ func (fr *fileReader) ReadAt(p []byte, off int64) (n int, err error) {
 		if !e.isDataType() {
 			continue
 		}
+		if e.Type == "reg" && e.Size == 0 {
+			// An empty file has no payload in any stream: its Offset and InnerOffset are zero, which
+			// must not be taken for a position in the stream that starts at blob offset 0.
+			continue
+		}
 		if e.Offset != fr.r.toc.Entries[ent.chunkTopIndex].Offset {
 			break
 		}
